@@ -78,8 +78,9 @@ mutual
 def need : Obj → Nat
   | .array xs => 2 + needL xs
   | .map kvs => 2 + needKV kvs
-  | .syncMap _ kvs => 2 + needKV kvs
-  | .compiledFunction _ => 10
+  | .syncMap true _ => 1
+  | .syncMap false kvs => 2 + needKV kvs
+  | .compiledFunction _ => 8
   | _ => 1
 def needL : List Obj → Nat
   | [] => 0
